@@ -349,6 +349,33 @@ def judge_call(ctx, s1, s2, sm, c1, c2, matrix, gp, terminal, local, max_number,
             ctx.check(int(fs) == int(ali.score), "score_fn_equals_reported",
                       "alignment %d: align.score gives %s, reported %d" % (idx, fs, int(ali.score)),
                       trace=rows, mode=mode)
+            if n > 0 and m > 0:
+                # the documented defaults of score(): gap_penalty=-10, terminal_penalty=True
+                fd = align.score(ali, sm)
+                rd = R.rescore(rows, codes, matrix, -10, terminal_penalty=True)
+                ctx.check(int(fd) == rd, "score_fn_equals_reported",
+                          "alignment %d: align.score with default arguments gives %s, the trace scores %d under gap_penalty=-10, terminal_penalty=True"
+                          % (idx, fd, rd), trace=rows, mode=mode)
+                # the same Alignment object after its second sequence was replaced in place (a legal edit of a mutable
+                # object): the score is the one of the alignment as it is now
+                c2 = [int(v) for v in codes[1]]
+                alt = c2[1:] + c2[:1]
+                if alt != c2:
+                    s2_now = ali.sequences[1]
+                    s2_alt = make_sequence(s2_now.get_alphabet(), alt)
+                    ali.sequences[1] = s2_alt
+                    try:
+                        fa = align.score(ali, sm, gap_penalty=gp, terminal_penalty=tp)
+                    finally:
+                        ali.sequences[1] = s2_now
+                    ra = R.rescore(rows, [codes[0], alt], matrix, gp, terminal_penalty=tp)
+                    ctx.check(int(fa) == ra, "score_fn_equals_reported",
+                              "alignment %d: after replacing the second sequence in place align.score gives %s, the alignment scores %d"
+                              % (idx, fa, ra), trace=rows, mode=mode)
+                    fb = align.score(ali, sm, gap_penalty=gp, terminal_penalty=tp)
+                    ctx.check(int(fb) == int(ali.score), "score_fn_equals_reported",
+                              "alignment %d: after restoring the second sequence align.score gives %s, reported %d" % (idx, fb, int(ali.score)),
+                              trace=rows, mode=mode)
     if nonempty == 0:
         ctx.oracle("results_distinct")     # vacuous but evaluated
     return opt, nonempty
@@ -379,7 +406,21 @@ def build_objects(d):
     # sliced / transposed for the call and overwritten afterwards.  The matrix object keeps the scores it was given.
     mat = np.array(d["matrix"]).astype(d["mdtype"])
     k1, k2 = mat.shape
-    how = (int(np.abs(d["matrix"]).sum()) + len(d["c1"]) + 3 * len(d["c2"])) % 4
+    how = (int(np.abs(d["matrix"]).sum()) + len(d["c1"]) + 3 * len(d["c2"])) % 5
+    if how == 4 and d["A"][1] is d["a"][1] and k2 <= 300:
+        # the scores as a dictionary {(symbol1, symbol2): score}; the second alphabet lists the same symbols as the first
+        # one in another order, so that a symbol's position differs between the two alphabets
+        syms2 = list(d["A"][1].get_symbols())
+        order = [(7 * i + 3) % len(syms2) for i in range(len(syms2))] if len(syms2) % 7 else list(range(len(syms2)))[::-1]
+        P2 = seq.Alphabet([syms2[i] for i in order])
+        s2 = make_sequence(P2, d["c2"])
+        if d.get("force64", (False, False))[1]:
+            s2._seq_code = s2.code.astype(np.uint64)
+        syms1 = list(d["A"][0].get_symbols())
+        table = {(syms1[i], P2.get_symbols()[j]): int(mat[i, j]) for i in range(k1) for j in range(k2)}
+        sm = align.SubstitutionMatrix(d["A"][0], P2, table)
+        return s1, s2, sm
+    how = how % 4
     if how == 1:
         buf = np.zeros((k1 + 1, k2 + 2), dtype=mat.dtype)
         buf[:k1, :k2] = mat
